@@ -87,6 +87,22 @@ std::string spliceBlock(const std::string& f, uint32_t id, const std::string& pa
 	return g;
 }
 
+// the same model stored back to front (every reference points forward, the root comes last): a sorting save has to move
+// every block
+void backToFront(NifFile& nif, const std::string& caseJson, std::string& out) {
+	auto& hdr = nif.GetHeader();
+	uint32_t n = hdr.GetNumBlocks();
+	std::vector<uint32_t> order(n);
+	for (uint32_t b = 0; b < n; b++) order[b] = n - 1 - b;
+	markPhase(1);
+	hdr.SetBlockOrder(order);
+	std::string fr = saveToString(nif, false, false);
+	markPhase(2);
+	std::string cj = caseJson;
+	cj.insert(cj.size() - 1, ",\"input\":\"stored back to front\"");
+	out += roundTrip(fr, cj);
+}
+
 int cmdSynth(int argc, char** argv) {
 	if (argc < 7) return 2;
 	std::string outPath = argv[1];
@@ -157,6 +173,7 @@ int cmdSynth(int argc, char** argv) {
 				cj.insert(cj.size() - 1, ",\"input\":\"generator bytes\"");
 				out += roundTrip(fg, cj);
 			}
+			if (cases[k].boostAt < 0) backToFront(nif, caseOf(k), out);
 		},
 		[&](size_t k, const std::string& why, FILE* out) {
 			// a crash / hang / OOM while handling a boosted instance that the library itself would reject is outside the
@@ -180,9 +197,79 @@ int cmdSamples(int argc, char** argv) {
 	uint64_t seed = seedFromEnv();
 	{ Out trunc(outPath); }
 	size_t per = 1 + variants;
+	// the other file versions of the same game: a sample's model written under each of them is an input of its own
+	struct Derived {
+		size_t file;
+		NiVersion ver;
+		const char* label;
+	};
+	std::vector<Derived> derived;
+	for (size_t k = 0; k < files.size(); k++) {
+		NifFile probe;
+		if (probe.Load(samplePath(files[k])) != 0) continue;
+		auto& pv = probe.GetHeader().GetVersion();
+		if (pv.IsOB()) {
+			derived.push_back({k, NiVersion(NiFileVersion::V10_1_0_106, 10, 11), "Oblivion 10.1.0.106"});
+			derived.push_back({k, NiVersion(NiFileVersion::V10_2_0_0, 10, 11), "Oblivion 10.2.0.0"});
+			derived.push_back({k, NiVersion(NiFileVersion::V20_0_0_4, 11, 11), "Oblivion 20.0.0.4"});
+		}
+		else if (pv.Stream() == 172)
+			derived.push_back({k, NiVersion(NiFileVersion::V20_2_0_7, 12, 173), "Starfield stream 173"});
+	}
+	size_t plain = files.size() * per;
 	size_t crashes = runForkedCases(
-		files.size() * per, outPath, 120,
+		plain + derived.size(), outPath, 120,
 		[&](size_t i, std::string& out) {
+			if (i >= plain) {
+				const Derived& d = derived[i - plain];
+				JObj c;
+				c.add("file", files[d.file]).add("variant", (long long) (100 + i - plain)).add("as", d.label).add("seed", (long long) seed);
+				NifFile nif;
+				if (nif.Load(samplePath(files[d.file])) != 0) return;
+				nif.GetHeader().SetVersion(d.ver);
+				markPhase(1);
+				std::string f0 = saveToString(nif, false, false);
+				markPhase(2);
+				out += roundTrip(f0, c.done());
+				// Oblivion: the same model as exporters write it that store the tangent space in the geometry data as well (method
+				// bits of the data flags + bit 12; the library itself keeps it in an extra data block only): the stored flags of
+				// the first triangle data block are patched in the written file
+				if (d.ver.IsOB()) {
+					NifFile src;
+					if (src.Load(samplePath(files[d.file])) != 0) return;
+					src.GetHeader().SetVersion(d.ver);
+					uint16_t written = 0;
+					for (auto& shape : src.GetShapes())
+						if (auto data = dynamic_cast<NiTriShapeData*>(shape->GetGeomData())) {
+							data->dataFlags |= 0x2540;
+							written = uint16_t(data->dataFlags & ~(1 << 12));
+						}
+					markPhase(1);
+					std::string f1 = saveToString(src, false, false);
+					auto& hdr = src.GetHeader();
+					bool patched = false;
+					for (uint32_t id = 0; id < hdr.GetNumBlocks() && !patched; id++) {
+						auto data = hdr.GetBlock<NiTriShapeData>(id);
+						if (!data) continue;
+						std::ostringstream front(std::ios::binary);
+						NiOStream os(&front, &hdr);
+						hdr.Put(os);
+						for (uint32_t b = 0; b < id; b++) hdr.GetBlock<NiObject>(b)->Put(os);
+						// group id (4), vertex count (2), keep + compress flags (2), has vertices (1), vertices
+						size_t pos = front.str().size() + 4 + 2 + 2 + 1 + 12 * size_t(data->GetNumVertices());
+						if (pos + 1 < f1.size() && uint8_t(f1[pos]) == (written & 0xFF) && uint8_t(f1[pos + 1]) == (written >> 8)) {
+							f1[pos + 1] = char(uint8_t(f1[pos + 1]) | 0x10);
+							patched = true;
+						}
+					}
+					if (!patched) return;
+					JObj c2;
+					c2.add("file", files[d.file]).add("variant", (long long) (200 + i - plain)).add("as", std::string(d.label) + ", tangent space also inline").add("seed", (long long) seed);
+					markPhase(2);
+					out += roundTrip(f1, c2.done());
+				}
+				return;
+			}
 			size_t k = i / per, v = i % per;
 			JObj c;
 			c.add("file", files[k]).add("variant", (long long) v).add("seed", (long long) seed);
@@ -246,8 +333,9 @@ int cmdSamples(int argc, char** argv) {
 		},
 		[&](size_t i, const std::string& why, FILE* out) {
 			int ph = lastCrashPhase();
-			fprintf(out, "{\"e\":\"%s\",\"case\":{\"file\":%s,\"variant\":%zu},\"why\":%s,\"phase\":%d}\n", (i % per) > 0 && ph < 2 ? "discard" : "crash",
-					J::str(files[i / per]).s.c_str(), i % per, J::str(why).s.c_str(), ph);
+			bool der = i >= files.size() * per;
+			fprintf(out, "{\"e\":\"%s\",\"case\":{\"file\":%s,\"variant\":%zu},\"why\":%s,\"phase\":%d}\n", (der || (i % per) > 0) && ph < 2 ? "discard" : "crash",
+					J::str(files[der ? derived[i - files.size() * per].file : i / per]).s.c_str(), der ? 100 + i - files.size() * per : i % per, J::str(why).s.c_str(), ph);
 		});
 	printf("{\"files\":%zu,\"cases\":%zu,\"crashes\":%zu}\n", files.size(), files.size() * per, crashes);
 	return 0;
@@ -305,6 +393,7 @@ int cmdRun(int argc, char** argv) {
 				cj.insert(cj.size() - 1, ",\"input\":\"generator bytes\"");
 				out += roundTrip(fg, cj);
 			}
+			if (boost < 0) backToFront(nif, caseOf(k), out);
 		},
 		[&](size_t k, const std::string& why, FILE* out) {
 			int ph = lastCrashPhase();
